@@ -77,6 +77,24 @@ def check_C04(c):
 
 def check_C05(c):
     out = []
+    # (a') submissions of one configuration from two user threads of a process (nothing fails in
+    # these scenarios): whatever their order, one job is registered and every submission returns
+    # the same output object
+    par = defaultdict(list)
+    for ev in c.by["par-submit-return"]:
+        par[(ev[2], ev[5]["x"])].append(ev[5])
+    for (pid, x), rets in sorted(par.items()):
+        if any(ev[2] == pid and ev[5].get("x") == x and ev[5]["new"] == "ERROR" for ev in c.by["state"]):
+            continue
+        rets = rets + [ev[5] for ev in c.by["submit-return"] if ev[2] == pid and ev[5]["x"] == x]
+        oids = sorted({r["oid"] for r in rets if "oid" in r and not r.get("out_none")})
+        none = sum(1 for r in rets if r.get("out_none"))
+        nreg = sum(1 for r in rets if r.get("has_future"))
+        if len(oids) > 1 or none:
+            out.append(V("C05", "concurrent-submit-new-output", {"none_returned": bool(none), "distinct_outputs": min(len(oids), 2)},
+                         "pid %d: %d submissions of x=%d from two threads returned %d different output objects and %d times None" % (pid, len(rets), x, len(oids), none)))
+        if nreg > 1:
+            out.append(V("C05", "concurrent-submit-registered", {}, "pid %d: %d of the %d submissions of x=%d from two threads were accepted as new jobs" % (pid, nreg, len(rets), x)))
     # (a) duplicate submission returns the first output and registers nothing
     spawned_by = defaultdict(list)   # (pid, x) -> spawn seqs
     for ev in c.by["spawn"]:
@@ -90,7 +108,9 @@ def check_C05(c):
         if not p.get("same_output"):
             out.append(V("C05", "duplicate-submit-new-output", {"first_state": p.get("first_state")},
                          "duplicate submit of x=%d returned another object (first job %s)" % (p["x"], p.get("first_state"))))
-        if p["njobs_after"] != p["njobs_before"] or p.get("registered_is_this") or p.get("has_future"):
+        # (the job count is only comparable when no other thread of the process submits meanwhile)
+        if (p["njobs_after"] != p["njobs_before"] and not any(e[2] == ev[2] for e in c.by["par-submit-call"])) \
+                or p.get("registered_is_this") or p.get("has_future"):
             out.append(V("C05", "duplicate-submit-registered", {"first_state": p.get("first_state")},
                          "duplicate submit of x=%d registered/scheduled a second job" % p["x"]))
     # (b) no launch by an experiment entered after the marker was written
